@@ -110,7 +110,20 @@ func main() {
 	inits := flag.String("init", "", "comma separated extra package paths whose init is executed")
 	dump := flag.String("dump", "", "dump SSA of function pkg.Func and exit")
 	cpuprof := flag.String("cpuprofile", "", "write CPU profile")
+	selft := flag.Int("selftest", 0, "validate the term normaliser against z3 on N random cases and exit")
+	seed := flag.Int64("seed", 1, "seed for -selftest")
 	flag.Parse()
+	if *selft > 0 {
+		q, f, msgs := selftest(*selft, *seed)
+		fmt.Printf("{\"cases\": %d, \"solver_queries\": %d, \"disagreements\": %d}\n", *selft, q, f)
+		for _, m := range msgs {
+			fmt.Fprintln(os.Stderr, m)
+		}
+		if f > 0 {
+			os.Exit(1)
+		}
+		return
+	}
 	if *cpuprof != "" {
 		f, _ := os.Create(*cpuprof)
 		pprof.StartCPUProfile(f)
